@@ -101,6 +101,7 @@ def cell_name(cell):
 
 def run_cells(m, model, cells, ninst, wasm_bytes=None, opts=()):
     """translate once, build + run under each cell; returns list of (cell, status, detail)"""
+    cells = [(c[0], f1.toolchain_cflags(c[0], c[1], model)) + tuple(c[2:]) for c in cells]
     b = e2e.Built(m, wasm_bytes=wasm_bytes, cc=cells[0][0], cflags=cells[0][1], ninst=ninst, w2c2_options=opts)
     out = []
     try:
